@@ -138,7 +138,7 @@ def run(ctx):
                         "template print paths reach the escaper only through StringUtils::EscapeHTMLSpecialChars (checked by rendering in C01/C02 harness)"]
 
 
-MODES = ["var", "ptr", "arr", "loopval", "loopkey", "echo", "raw", "rawptr", "svar"]
+MODES = ["var", "ptr", "arr", "loopval", "loopkey", "echo", "raw", "rawptr", "svar", "svarb"]
 
 
 def template_paths(ctx, drv, h_on, h_off, inputs):
@@ -159,6 +159,8 @@ def template_paths(ctx, drv, h_on, h_off, inputs):
                     continue
                 if m == "echo" and any(x in (123, 125, 91, 93, 0) for x in u):
                     continue   # the name would end the tag early / be an index expression
+                if m == "svarb" and (any(x in (123, 125) for x in u) or (len(u) == 1 and 48 <= u[0] <= 57)):
+                    continue   # "{d}" with one digit is a placeholder; braces would nest
                 lines.append("tpl %d %s %s %s" % (auto, w, m, core.show_units(u)))
                 if m == "echo":
                     src = [123, 118, 97, 114, 58] + u + [125]
@@ -167,6 +169,8 @@ def template_paths(ctx, drv, h_on, h_off, inputs):
                     exp_src.append(("id", [u]))
                 elif m == "svar":
                     exp_src.append(("esc", [u, u]))
+                elif m == "svarb":
+                    exp_src.append(("esc", [[123] + u + [125], u]))
                 else:
                     exp_src.append(("esc", [u]))
         impl, faults = core.run_lines_parallel(exe, lines, jobs=12)
